@@ -32,3 +32,10 @@ W void* w_np_make(const char* buf, const unsigned* offs, unsigned n) {
   try { auto* np = new mp::NameProvider("x", "y"); auto& v = np->*get(NamesTag()); v.reserve(n); for (unsigned i = 0; i < n; ++i) v.push_back(buf + offs[i]); return np; }
   catch (...) { return 0; }
 }
+// object image of NameProvider holding only names_ (name(i) for an existing line touches nothing else)
+W void* w_np_make_img(const char* buf, const unsigned* offs, unsigned n) {
+  try { char* st = static_cast<char*>(operator new(sizeof(mp::NameProvider))); for (unsigned long i = 0; i < sizeof(mp::NameProvider); ++i) st[i] = 0;
+        auto* np = reinterpret_cast<mp::NameProvider*>(st); auto& v = *new (&(np->*get(NamesTag()))) std::vector<const char*>(); v.reserve(n);
+        for (unsigned i = 0; i < n; ++i) v.push_back(buf + offs[i]); return np; }
+  catch (...) { return 0; }
+}
